@@ -36,6 +36,9 @@ def _kwargs(engine, st, node):
             if isinstance(v, PyConst) and v.val == "<kwargs>":
                 out["**"] = v  # opaque pass-through of **kwargs
                 continue
+            if isinstance(v, V) and type(v.t) is type(Key):
+                out["**"] = v  # an opaque options object forwarded as keywords (only externals see it)
+                continue
             raise Unsupported("**kwargs call")
         out[kw.arg] = engine.eval(st, kw.value)
     return out
@@ -410,6 +413,33 @@ def method_call(engine, st, base, bv, meth, node):
             return Ty.mk_none()
         if meth == "copy":
             return engine.alloc(st, bv)
+        if meth == "setdefault" and len(args) == 2 and isinstance(args[0], PyConst) and isinstance(args[0].val, str) and args[0].val in off:
+            need_ref()
+            a, b, c, ft = off[args[0].val]
+            newv = engine.coerce(engine.unbox_value(st, args[1]), ft)
+            comps = list(bv.c)
+            present = bv.c[a]
+            comps[a] = z3.BoolVal(True)
+            comps[b:c] = [z3.If(present, x, y) for x, y in zip(bv.c[b:c], newv.c)]
+            st.heap[base.id] = V(t, comps)
+            return V(ft, comps[b:c])
+        if meth == "update" and len(args) == 1:
+            need_ref()
+            other = engine.deref(st, args[0])
+            if not (isinstance(other, V) and isinstance(other.t, Ty.SDict)):
+                raise Unsupported("update() of a string-keyed dict with something else")
+            ooff = other.t.offsets()
+            comps = list(bv.c)
+            for name_, (oa, ob, oc, oft) in ooff.items():
+                if name_ not in off:
+                    raise Unsupported(f"update() brings key {name_!r} outside the declared fields")
+                a, b, c, ft = off[name_]
+                ov = engine.coerce(V(oft, other.c[ob:oc]), ft)
+                present = other.c[oa]
+                comps[a] = z3.Or(comps[a], present)
+                comps[b:c] = [z3.If(present, y, x) for x, y in zip(comps[b:c], ov.c)]
+            st.heap[base.id] = V(t, comps)
+            return Ty.mk_none()
         if meth in ("pop", "get"):
             k = args[0]
             if not (isinstance(k, PyConst) and isinstance(k.val, str)):
